@@ -48,11 +48,19 @@ Definition fc_guard {A} (a b : fconcept) (k : cres A) : cres A :=
   else if negb (Bool.eqb (fc_mono a) (fc_mono b)) then CErr UnmatchedMonotone
   else k.
 
-(* __eq__ : guards; support shortcut; tuple equality *)
+(* sorted(extent_i) : insertion sort *)
+Fixpoint insert_sorted (x : nat) (l : list nat) : list nat :=
+  match l with
+  | [] => [x]
+  | y :: l' => if Nat.leb x y then x :: l else y :: insert_sorted x l'
+  end.
+Definition sort_nat (l : list nat) : list nat := fold_right insert_sorted [] l.
+
+(* __eq__ (after repair 0ac2495): guards; support shortcut; equality of the SORTED extents *)
 Definition fc_eq (a b : fconcept) : cres bool :=
   fc_guard a b
     (if negb (Nat.eqb (fc_support a) (fc_support b)) then COk false
-     else COk (nat_list_eqb (fc_extent_i a) (fc_extent_i b))).
+     else COk (nat_list_eqb (sort_nat (fc_extent_i a)) (sort_nat (fc_extent_i b)))).
 
 (* for g_i in lesser.extent_i: if g_i not in set(greater.extent_i): return False *)
 Definition subset_loop (lesser greater : list nat) : bool :=
@@ -71,8 +79,8 @@ Definition fc_lt (a b : fconcept) : cres bool :=
   fc_guard a b
     (if Nat.eqb (fc_support a) (fc_support b) then COk false else fc_le a b).
 
-(* __hash__ : hash(self.extent_i); the tuple hash is an arbitrary function [TH] *)
-Definition fc_hashv (TH : list nat -> Z) (c : fconcept) : Z := TH (fc_extent_i c).
+(* __hash__ : hash(tuple(sorted(self.extent_i))); the tuple hash is an arbitrary function [TH] *)
+Definition fc_hashv (TH : list nat -> Z) (c : fconcept) : Z := TH (sort_nat (fc_extent_i c)).
 
 (* Python's derived operators: a != b inverts __eq__; a >= b and a > b are the reflected
    calls b.__le__(a), b.__lt__(a) (AbstractConcept defines neither __ne__, __ge__ nor __gt__) *)
@@ -144,14 +152,6 @@ Definition pc_lt (a b : pconcept) : cres bool :=
 Definition pc_ne (a b : pconcept) : cres bool := cres_map negb (pc_eq a b).
 Definition pc_ge (a b : pconcept) : cres bool := pc_le b a.
 Definition pc_gt (a b : pconcept) : cres bool := pc_lt b a.
-
-(* sorted(extent_i) for the hash: insertion sort *)
-Fixpoint insert_sorted (x : nat) (l : list nat) : list nat :=
-  match l with
-  | [] => [x]
-  | y :: l' => if Nat.leb x y then x :: l else y :: insert_sorted x l'
-  end.
-Definition sort_nat (l : list nat) : list nat := fold_right insert_sorted [] l.
 
 (* __hash__ : hash((tuple(sorted(self._extent_i)), self._context_hash)) *)
 Definition pc_hashv (PH : list nat * option Z -> Z) (c : pconcept) : Z :=
